@@ -13,6 +13,9 @@ package object
 //@   loop 1 decreases len(name) - rangepos(1)
 //@   property C19 C04
 
+//@ global empty:: EmptyArray.len == 0
+//@ global bools:: TRUE.Value && !FALSE.Value
+
 //@ define scalar(x) = isType(x, Integer) || isType(x, Float) || isType(x, Boolean) || isType(x, Null) || isType(x, String) || isType(x, Error)
 
 //@ func Value
@@ -52,7 +55,7 @@ func lemmaCmp2(a, b Object) (ab, ba, aa int, eab, eba, eaa bool) {
 
 //@ func lemmaCmp2
 //@   arith bv
-//@   unfold object.Cmp
+//@   unfold object.Cmp object.Equals
 //@   requires scalar(a) && scalar(b)
 //@   split isType(a, Integer) | isType(a, Float) | isType(a, Boolean) | isType(a, Null) | isType(a, String) | isType(a, Error)
 //@   split isType(b, Integer) | isType(b, Float) | isType(b, Boolean) | isType(b, Null) | isType(b, String) | isType(b, Error)
@@ -73,7 +76,7 @@ func lemmaCmpTrans(a, b, c Object) (ab, bc, ac int, eab, ebc, eac bool) {
 //@ func lemmaCmpTrans
 //@   arith bv
 //@   nosafety
-//@   unfold object.Cmp
+//@   unfold object.Cmp object.Equals
 //@   requires scalar(a) && scalar(b) && scalar(c)
 //@   split isType(a, Integer) | isType(a, Float) | isType(a, Boolean) | isType(a, Null) | isType(a, String) | isType(a, Error)
 //@   split isType(b, Integer) | isType(b, Float) | isType(b, Boolean) | isType(b, Null) | isType(b, String) | isType(b, Error)
@@ -107,3 +110,52 @@ func lemmaCmpTrans(a, b, c Object) (ab, bc, ac int, eab, ebc, eac bool) {
 //@   maypanic would exceed memory
 //@   ensures  len(result) == 0 && cap(result) == n
 //@   property C09 C07
+
+// Cmp and Equals are used as uninterpreted (deterministic) functions of their operands in the contracts of
+// their callers; their own laws are the lemmas above.
+//@ func Cmp
+//@   opaque
+//@   nosafety
+//@   pure
+//@   trustframe
+//@   maypanic *
+//@   property C12
+//@ func Equals
+//@   opaque
+//@   nosafety
+//@   pure
+//@   trustframe
+//@   maypanic *
+//@   property C12
+
+// Arrays: abstract view (length, element at i) shared by the small (inline, <= 8) and big (slice) representations.
+//@ define isArr(o) = isType(o, SmallArray) || isType(o, BigArray)
+//@ define seqLen(o) = ite(isType(o, SmallArray), o.(SmallArray).len, len(o.(BigArray).elements))
+//@ define seqAt(o, i) = ite(isType(o, SmallArray), o.(SmallArray).smallArr[i], o.(BigArray).elements[i])
+//@ define wfArr(o) = implies(isType(o, SmallArray), 0 <= o.(SmallArray).len && o.(SmallArray).len <= 8)
+//@ define plain(o) = o != nil && !isType(o, Reference) && !isType(o, *Register)
+
+//@ func Len
+//@   pure
+//@   trustframe
+//@   nosafety
+//@   ensures  array:: implies(plain(a) && isArr(a), result == seqLen(a))
+//@   ensures  string:: implies(isType(a, String), result == len(a.(String).Value))
+//@   ensures  null:: implies(isType(a, Null), result == 0)
+//@   property C01 C07
+
+//@ func Elements
+//@   modifies *
+//@   nosafety
+//@   ensures  array:: implies(plain(val) && isArr(val) && wfArr(val), len(result) == seqLen(val) && forall(0, len(result), func(k int) bool { return result[k] == seqAt(val, k) }))
+//@   property C01 C07
+
+//@ func NewArray
+//@   modifies *
+//@   ensures  isArr(result) && wfArr(result) && seqLen(result) == len(elements)
+//@   ensures  content:: forall(0, len(elements), func(k int) bool { return seqAt(result, k) == old(elements[k]) })
+//@   property C01 C06 C07
+
+// Data invariant of object values held in interfaces (what constructors establish).
+//@ define wfMapObj(o) = implies(isType(o, *BigMap), o.(*BigMap) != nil) && implies(isType(o, SmallMap), 0 <= o.(SmallMap).len && o.(SmallMap).len <= 4)
+//@ define wfObj(o) = plain(o) && wfArr(o) && wfMapObj(o)
